@@ -10,7 +10,14 @@ Operations: every operation of `CJ.Drv.Registry.parseOp`, and
 * `P,<ph>,<id>` / `Q,<ph>,<id>` — a tunnel on the registration is opened (Proxy entered) / finishes;
 * `B,<t|r|m>,<ph>,<prefix>,<start>,<n>,<tr>,<now>` — a burst of `n` track / register / markActive
   operations for the identifiers `<prefix><start>` … ; the answer is `bulk <out>=<count> …`;
-* `sb,<now>` / `se` — one sweep, interrupted between collection and removal. -/
+* `sb,<now>` / `xs,<ph>,<id>,<ph>,<id>,…` / `se` — one sweep in pieces: collection; the removal loop has
+  handled these indices; the loop handles the rest.
+
+The head of an operation may carry an annotation `@…` (`m@w,…`, `sb@r2,…`): the operation arrived while a
+stand-in held the registry's read (`r`) / write (`w`) lock — for a sweep from its start or from its n-th
+scheduling point on.  The model's operations are atomic and an operation that waits is the same
+operation, so the annotation is dropped here; that no acquisition of the registry lock can refuse is the
+regenerated fact `CJ.Gen.registryLockAcquisitions` (`C08.registry_lock_never_refuses`). -/
 namespace CJ.Drv.RegistryX
 open CJ.Registry CJ.Drv
 
@@ -19,8 +26,19 @@ def parsePrior (s : String) : Option Bool :=
   else if s == "1" || s == "r1" then some true
   else none
 
+def parsePairs : List String → Option (List Key)
+  | [] => some []
+  | [_] => none
+  | ph :: id :: rest => (parsePairs rest).map fun l => (ph, id) :: l
+
+/-- drop the `@…` annotation of the head token -/
+def stripAnnotation (toks : List String) : List String :=
+  match toks with
+  | [] => []
+  | h :: t => ((h.splitOn "@").headD h) :: t
+
 def parseXOp (s : String) : Option XOp :=
-  match s.splitOn "," with
+  match stripAnnotation (s.splitOn ",") with
   | ["to", ph, id, tr, now, pv] => do some (.trackObj (ph, id) (← tr.toNat?) (← now.toNat?) (← parsePrior pv))
   | ["ro", ph, id, tr, now, pv] => do some (.registerObj (ph, id) (← tr.toNat?) (← now.toNat?) (← parsePrior pv))
   | ["P", ph, id] => some (.tunnel (ph, id))
@@ -30,7 +48,8 @@ def parseXOp (s : String) : Option XOp :=
     some (.bulk k ph pre (← start.toNat?) (← n.toNat?) (← tr.toNat?) (← now.toNat?))
   | ["sb", now] => do some (.sweepBegin (← now.toNat?))
   | ["se"] => some .sweepEnd
-  | _ => (Registry.parseOp s).map .base
+  | "xs" :: ks => (parsePairs ks).map .sweepSome
+  | toks => (Registry.parseOp (joinWith "," toks)).map .base
 
 /-- `a a b c c c` → `a=2 b=1 c=3` (input sorted) -/
 def histogram (l : List String) : List String :=
